@@ -178,6 +178,18 @@ def run(ctx):
                     after=[("pass",)] * rng.choice(n_after), ehandlers=eh,
                     shandlers=sh, method=method,
                     leaf=("endpoint", ("throw", thrown))))
+    # a class registered again for a further method keeps the position of
+    # its first registration: the earlier, more general class still wins
+    for first, second, thrown in ((1, 2, 2), (10, 1, 1), (10, 2, 2),
+                                  (10, 3, 3), (1, 2, 2)):
+        for method in ("GET", "POST", rng.choice(methods)):
+            mbit = dc.METHODS[method]
+            other = 8 if mbit != 8 else 16
+            scenarios.append(dc.Scenario(
+                ehandlers=[(first, {mbit: ("ret", ("str", "first"))}),
+                           (second, {mbit: ("ret", ("str", "second"))}),
+                           (first, {other: ("ret", ("str", "again"))})],
+                method=method, leaf=("endpoint", ("throw", thrown))))
     # nested failures to depth 3 through the after-hook path as well
     for _ in range(150 if ctx.quick else 2000):
         sc = dc.rand_scenario(rng)
